@@ -37,7 +37,7 @@ class MarkupMachine(Machine):
 
     # Special attributes such as NestedState._name/_parent or Transition._condition are handled differently
     state_attributes = ['on_exit', 'on_enter', 'ignore_invalid_triggers', 'timeout', 'on_timeout', 'tags', 'label',
-                        'final']
+                        'final', 'on_final']
     transition_attributes = ['source', 'dest', 'prepare', 'before', 'after', 'label']
 
     def __init__(self, model=Machine.self_literal, states=None, initial='initial', transitions=None,
